@@ -37,6 +37,7 @@ structure Case where
   q : QState String := {}
   modelOk : Bool := true      -- false after the first DIFF of the case
   dual : Bool := false
+  req : Nat := 0              -- the minimum depth the user requested (NOT the depth the FIFO reports)
   trans : Bool := false       -- case drives scl::TransactionalFifo
   tst : TState String := tinit { k := 0, lw := 1, lr := 1 } "x"
   tq : TSpec String := {}
@@ -101,7 +102,7 @@ def startCase (d : D) (toks : List String) (lineNo : Nat) : IO D := do
         d := { d with diffs := d.diffs + 1 }; ok := false
       let x := String.ofList (List.replicate w 'x')
       return { d with hist := d.hist.bump s!"trans_lw{implCfg.lw}",
-                      cs := { id := id, cfg := implCfg, w := w, active := true, trans := true, tst := tinit implCfg x, tq := {}, modelOk := ok, line0 := lineNo } }
+                      cs := { id := id, cfg := implCfg, w := w, active := true, trans := true, tst := tinit implCfg x, tq := { req := minD, lr := implCfg.lr }, modelOk := ok, req := minD, line0 := lineNo } }
     | err, m =>
       IO.println s!"DIFF case={id} line={lineNo} what=config model={repr m} impl=err:{err}"
       return { d with diffs := d.diffs + 1, errcases := d.errcases + 1, cs := { id := id, active := false } }
@@ -119,7 +120,7 @@ def startCase (d : D) (toks : List String) (lineNo : Nat) : IO D := do
     match field toks "err", mkCfg minD false (streamInnerLat lat) with
     | none, some m =>
       let x := String.ofList (List.replicate w 'x')
-      return { d with cs := { id := id, cfg := m, w := w, st := init m x, q := {}, active := true, stream := true,
+      return { d with cs := { id := id, cfg := m, w := w, st := init m x, q := {}, active := true, stream := true, req := minD,
                               fall := streamFallThrough lat, line0 := lineNo } }
     | err, m =>
       IO.println s!"DIFF case={id} line={lineNo} what=config model={repr m} impl=err:{err}"
@@ -145,7 +146,7 @@ def startCase (d : D) (toks : List String) (lineNo : Nat) : IO D := do
       d := { d with diffs := d.diffs + 1 }; ok := false
     d := { d with hist := (d.hist.bump s!"k{implCfg.k}").bump s!"lw{implCfg.lw}" }
     let x := String.ofList (List.replicate w 'x')
-    return { d with cs := { id := id, cfg := implCfg, w := w, st := init implCfg x, q := {}, modelOk := ok, active := true, dual := dual, line0 := lineNo } }
+    return { d with cs := { id := id, cfg := implCfg, w := w, st := init implCfg x, q := {}, modelOk := ok, active := true, dual := dual, req := minD, line0 := lineNo } }
 
 def showOut (c : Cfg) (o : Out String) : String :=
   s!"{bs o.full} {bs o.pushValid} {bs o.af} {bitsOf o.pushSize (c.k+1)} | {bs o.empty} {bs o.popValid} {bs o.ae} {bitsOf o.popSize (c.k+1)} {o.peek}"
@@ -177,7 +178,7 @@ def doEvent (d : D) (toks : List String) (lineNo : Nat) : IO D := do
         cs := { cs with st := step c cs.st e }
     -- specification vs implementation
     let fillBefore := cs.q.queue.length
-    let (viol, q') := if cs.specOk then qcheck c.N c.M c.lw cs.q e oi else ([], cs.q)
+    let (viol, q') := if cs.specOk then qcheck c.N c.M c.lw cs.req c.lr cs.q e oi else ([], cs.q)
     -- the known corner (flag only, the abstract queue stays in step) is reported once per case and does not end the spec check
     let (kn, other) := viol.partition (· == knownAfKind)
     let viol := (if cs.knownSeen then [] else kn) ++ other
@@ -231,7 +232,7 @@ def doStreamEvent (d : D) (toks : List String) (lineNo : Nat) : IO D := do
       else
         cs := { cs with st := step c cs.st (streamEvent cs.fall cs.st (b rst) (b inValid) data (b outReady)) }
     let fillBefore := cs.q.queue.length
-    let (viol, q') := if cs.specOk then scheck c.N c.lw cs.fall cs.q (b rst) (b inValid) data (b outReady) (b inReady) (b outValid) outData
+    let (viol, q') := if cs.specOk then scheck c.N c.lw cs.req c.lr cs.fall cs.q (b rst) (b inValid) data (b outReady) (b inReady) (b outValid) outData
                       else ([], cs.q)
     for v in viol do
       IO.println s!"PROPFAIL case={cs.id} line={lineNo} event={cs.events} kind={v} fill={fillBefore} N={c.N} lw={c.lw} ev=[{" ".intercalate toks}]"
